@@ -8,6 +8,7 @@ import itertools
 from hypothesis import strategies as st
 
 from vlib.runner import Outcome, ShardResult, enum_search, fingerprint, hyp_search
+from vlib.workmeter import METER, WorkBudgetExceeded
 
 ID = "C14"
 LEVEL = "exploration"
@@ -69,6 +70,8 @@ def tokenize(data, bufsiz):
     old = PSBaseParser.BUFSIZ
     PSBaseParser.BUFSIZ = bufsiz
     toks = []
+    # a single nexttoken() call that never returns is caught by the event budget (no wall clock involved)
+    METER.arm(400 * len(data) + 20000)
     try:
         p = PSBaseParser(io.BytesIO(data))
         limit = 20 * len(data) + 50
@@ -82,6 +85,9 @@ def tokenize(data, bufsiz):
                 pos, tok = p.nexttoken()
             except PSEOF:
                 break
+            except WorkBudgetExceeded:
+                return toks, "no termination: nexttoken() exceeded %d interpreter events on %d bytes" % (
+                    400 * len(data) + 20000, len(data))
             except BaseException as e:  # noqa
                 return toks, "nexttoken raised %s: %s" % (type(e).__name__, e)
             if not isinstance(pos, int) or pos < last or pos < 0 or pos >= max(len(data), 1):
@@ -90,6 +96,7 @@ def tokenize(data, bufsiz):
             toks.append((pos, _canon(tok)))
         return toks, None
     finally:
+        METER.disarm()
         PSBaseParser.BUFSIZ = old
 
 
